@@ -16,7 +16,7 @@ def main():
     from pyvc.solve import discharge, merge_verdicts
     axioms = LATTICE.axioms()
     for c in reg:
-        if pat not in c.key:
+        if pat not in c.key or getattr(c, 'assumed', False):
             continue
         t0 = time.time()
         rep = verify_function(repo, reg, models_factory, c, axioms, options=dict(tier=tier))
